@@ -799,6 +799,8 @@ REC_GUARDS = {
         e["allowed"] == [0] and c["W"]["kind"][k] == "go" and e["strict"] and (c["W"]["root"]["excl"] or any(c["W"]["excl"]))
         and ("T" in c["W"]["rec"] or c["W"]["root"]["rec"] == "T") for k, e in enumerate(c["expect"])),
     "a recursive package whose own directory has no Go files": lambda c: rootless(c),
+    "a container package (no Go files of its own) with a sub-package that has Go files": lambda c: rootless(c) and not c.get("mayfail") and any(
+        not c["W"]["on"][k] and e["strict"] and e["allowed"] != [0] for k, e in enumerate(c["expect"])),
     "a test-only directory below a recursive package": lambda c: "test" in c["W"]["kind"],
     "a directory go list hides (testdata, _x, .x, vendor, nested module)": lambda c: any(k_ in c["W"]["kind"] for k_ in ("testdata", "under", "dot", "vendor", "submod")),
     "nested recursive packages": lambda c: sum(1 for k in range(c["W"]["n"]) if c["W"]["on"][k] and c["W"]["rec"][k] == "T") >= 2,
